@@ -100,6 +100,19 @@ Theorem C06_scan_show_record_txt_no_strings_refuted : exists k r,
 Proof. exact scan_show_record_txt_no_strings_refuted. Qed.
 Print Assumptions C06_scan_show_record_txt_no_strings_refuted.
 
+Theorem C06_ip4_text_roundtrip : forall a, wf_ip4 a ->
+  plain_word (show_ip4 a) = true /\ parse_ip4 (show_ip4 a) = Some a.
+Proof. intros a W. split; [apply show_ip4_plain | apply parse_show_ip4]; exact W. Qed.
+Print Assumptions C06_ip4_text_roundtrip.
+
+Theorem C06_nsec3_nests_two_deep :
+  option_map (fun r => max_depth 0 0 (record_ops r)) nsec3_example = Some 2 /\
+  option_map (fun r => do t <- show_record KMulti r; do ts <- tokenize t; Ok (length ts)) nsec3_example = Some (Ok 11%nat) /\
+  run (Ok (2, [], MSkip false)) [41; 32; 41; 10] = Ok (0, [], MDone) /\
+  run (Ok (1, [], MSkip false)) [41; 32; 41; 10] = Err E_parens.
+Proof. exact (conj nsec3_nests_two_deep (conj nsec3_multiline_tokens paren_depth_must_count)). Qed.
+Print Assumptions C06_nsec3_nests_two_deep.
+
 Theorem C06_type_schemas_consistent : forallb schema_ok type_schemas = true.
 Proof. exact type_schemas_ok. Qed.
 Print Assumptions C06_type_schemas_consistent.
@@ -147,6 +160,11 @@ Theorem C06_fast_path_agrees : forall q t, ~ In 127 (fst (fst (fast_take q t))) 
   scan_octets_text q t = slow_octets q t.
 Proof. exact fast_path_agrees. Qed.
 Print Assumptions C06_fast_path_agrees.
+
+Theorem C06_scan_octets_is_lex_fast : forall q t,
+  scan_octets_text q t = do x <- lex_fast q t; do o <- map_o into_octet (fst x); Ok (o, snd x).
+Proof. exact scan_octets_is_lex_fast. Qed.
+Print Assumptions C06_scan_octets_is_lex_fast.
 
 Theorem C06_fast_path_agrees_refuted : exists q t,
   scan_octets_text q t = Ok ([127], [32]) /\ slow_octets q t = Err E_symbol.
